@@ -27,7 +27,7 @@ Proof.
   intros HR HA HRR Em Ec Et. unfold c75. rewrite <- Em, Ec, Et. apply forallb_forall. intros [k dl] Hin. cbn [fst snd].
   pose proof (In_alook_sorted _ k dl (rr_sorted _ _ HRR) Hin) as Hk.
   destruct (rr_ob _ _ HRR k dl Hk) as (rec & t & x & Hreg & Hr & Hx & Lx & Ed).
-  destruct (N.leb_spec dl (clock s')) as [L|L]; [|reflexivity]. cbn [negb orb].
+  destruct (N.leb_spec dl (clock s')) as [L|L]; [|reflexivity]. cbn [negb orb]. destruct (e_live m e); [|reflexivity]. cbn [negb orb].
   pose proof (Reach_J _ HR) as HJ. destruct (j_rt _ HJ rec t Hr) as (x1 & Hx1 & Kx). rewrite Hx in Hx1. inversion Hx1; subst x1.
   pose proof (Reach_J2 _ HR) as HJ2. destruct (j2_rt _ HJ2 rec t Hr) as (x2 & Hx2 & Tx). rewrite Hx in Hx2. inversion Hx2; subst x2.
   assert (Ef : tst x = TFired) by (destruct Lx as [T|T]; [pose proof (HA t x Hx T); lia | exact T]).
@@ -70,6 +70,34 @@ Proof.
          end; try reflexivity. destruct (cond_ok n0 n); reflexivity.
 Qed.
 
+Lemma consumed_sub m e rt k dl : alook (consumed_of m e rt) k = Some dl -> alook rt k = Some dl.
+Proof.
+  unfold consumed_of. intros H.
+  repeat match type of H with
+         | context [match ?l with _ => _ end] => is_var l; destruct l
+         end; try exact H.
+  destruct (nth_error (m_tims m) (n2n n)) as [[[kind k0] d0]|]; [|exact H]. destruct (_ && _); [|exact H].
+  destruct (N.eq_dec k k0) as [->|Hne]; [rewrite alook_adel_same in H; discriminate | now rewrite alook_adel_other in H].
+Qed.
+Lemma consumed_sorted m e rt : asorted (map fst rt) -> asorted (map fst (consumed_of m e rt)).
+Proof.
+  intros Hs. unfold consumed_of.
+  repeat match goal with
+         | |- context [match ?l with _ => _ end] => is_var l; destruct l
+         end; try exact Hs.
+  destruct (nth_error (m_tims m) (n2n n)) as [[[kind k0] d0]|]; [|exact Hs]. destruct (_ && _); [now apply asorted_adel | exact Hs].
+Qed.
+Lemma consumed_nil m e : consumed_of m e [] = [].
+Proof.
+  unfold consumed_of.
+  repeat match goal with
+         | |- context [match ?l with _ => _ end] => is_var l; destruct l
+         end; try reflexivity.
+  destruct (nth_error (m_tims m) (n2n n)) as [[[kind k0] d0]|]; [|reflexivity]. destruct (_ && _); reflexivity.
+Qed.
+Lemma fold_adel_nil (ks : list N) : fold_left (fun (rt : list (N * N)) k => adel rt k) ks [] = [].
+Proof. induction ks as [|x l IH]; [reflexivity | exact IH]. Qed.
+
 Lemma bo_of_none bo key : alook bo key = None -> bo_of bo key = 0%nat. Proof. unfold bo_of. now intros ->. Qed.
 
 Section NoLog.
@@ -85,7 +113,9 @@ Section NoLog.
   Hypothesis Hc : DecCase h e ev rets.
   Variable X : nat -> Prop.
   Hypothesis HP : POx X (hs h) (next h ev).
-  Hypothesis HX : forall t, X t -> e_live m e = false.
+  Hypothesis HX : forall t, X t -> forall k dl x, nth_error (timers (hs h)) t = Some x -> tkind x = false -> tkey x = n2n k -> tdead x = dl ->
+    alook (retry2_of m e (pobs_of rets (next h ev) (hlog h))) k = Some dl ->
+    alook (consumed_of m e (retry2_of m e (pobs_of rets (next h ev) (hlog h)))) k = None.
 
   Let s := hs h.
   Let s' := next h ev.
@@ -104,14 +134,15 @@ Section NoLog.
     pose proof (Reach_J _ Reach_s'_n) as HJ'. pose proof (Reach_ID _ Reach_s'_n) as ((W1' & W2') & D1' & D2' & D4').
     pose proof (px_mono _ _ _ HP) as M. fold s s' in M.
     constructor; cbn [fst mon1 m_retry m_bo m_script].
-    - (* sorted *) unfold retry3_of. destruct (e_live m e); [|exact I]. apply asorted_filter, asorted_fold_adel. rewrite nolog_retry1. cbn [snd].
+    - (* sorted *) unfold retry3_of, retry2_of. apply asorted_filter, consumed_sorted, asorted_fold_adel. rewrite nolog_retry1. cbn [snd].
       apply retry0_sorted, HRR.
-    - (* no script: no obligations *) intros Hs. unfold retry3_of. destruct (e_live m e); [|reflexivity]. rewrite nolog_retry1. cbn [snd].
-      rewrite (retry0_nil m e (rr_none _ _ HRR Hs)). generalize (map ikey_of (news_of m p)). intros l. induction l as [|x l IH]; [reflexivity | exact IH].
+    - (* no script: no obligations *) intros Hs. unfold retry3_of, retry2_of. rewrite nolog_retry1. cbn [snd].
+      rewrite (retry0_nil m e (rr_none _ _ HRR Hs)), fold_adel_nil, consumed_nil. reflexivity.
     - (* the obligations that are kept *)
-      intros k dl Hk. unfold retry3_of in Hk. destruct (e_live m e) eqn:El; [|discriminate]. rewrite nolog_retry1 in Hk. cbn [snd] in Hk.
+      intros k dl Hk. unfold retry3_of in Hk.
       change (fun kd : N * N => ahas (po_keys p) (fst kd)) with (fun kd : N * N => (fun k0 => ahas (po_keys p) k0) (fst kd)) in Hk.
       rewrite alook_filter_key in Hk. destruct (ahas (po_keys p) k) eqn:Epres; [|discriminate].
+      pose proof Hk as Hcons. apply consumed_sub in Hk. pose proof Hk as Hk2. unfold retry2_of in Hk. rewrite nolog_retry1 in Hk. cbn [snd] in Hk.
       rewrite alook_fold_adel in Hk. destruct (nmem k (map ikey_of (news_of m p))) eqn:En; [discriminate|].
       destruct (retry0_look m e k dl Hk) as [Hk0 Hres].
       destruct (rr_ob _ _ HRR k dl Hk0) as (rec & t & x & Hreg & Hr & Hx & Lx & Ed). fold s in Hreg, Hr, Hx.
@@ -139,7 +170,10 @@ Section NoLog.
           apply Hne. apply D2'; [exact Lr' | exact Rl' | congruence | congruence].
         * pose proof (ctor_kept (m_delay m) (m_clock m) (m_ctx m) (m_tims m) (e_late e (pobs_of rets s' (hlog h))) (ahas (po_keys (pobs_of rets s' (hlog h)))) (m_ref m) e k) as CK.
           assert (Hp : ahas (r_keys (m_ref m)) k = true) by (unfold ahas; now rewrite Epre). specialize (CK Hp Hres). rewrite CK in C2. lia.
-      + pose proof (HX t X1) as E2. congruence.
+      + exfalso. destruct (j_rt _ HJ rec t Hr) as (x1 & Hx1 & Kx). fold s in Hx1. rewrite Hx in Hx1. inversion Hx1; subst x1.
+        destruct (j2_rt _ HJ2 rec t Hr) as (x2 & Hx2 & Tx). fold s in Hx2. rewrite Hx in Hx2. inversion Hx2; subst x2.
+        destruct (j_tk _ HJ t x Hx) as [_ Etk]. rewrite Tx, Rk in Etk.
+        pose proof (HX t X1 k dl x Hx Kx Etk Ed Hk2) as E2. unfold p, s' in Hcons. congruence.
     - (* back-off indices *)
       intros Hs r Hr. rewrite nolog_retry1. cbn [fst]. fold s'. destruct (Nat.lt_ge_cases r (length (recs s))) as [Hl|Hl].
       + rewrite (pkr_mono s s' r M Hl). pose proof (px_bo_old _ _ _ HP r Hl) as Eb. fold s' in Eb. rewrite Eb. now apply (rr_bo _ _ HRR).
@@ -250,14 +284,14 @@ Section Book.
       { intros E E2. rewrite Ekd in E2. unfold in_map in E. fold y in E. rewrite E2, Nat.eqb_refl in E. discriminate. }
       unfold retry1_of, retry0_of in *. cbn [fst mon1 m_retry m_bo m_script].
       constructor; cbn [m_retry m_bo m_script].
-      + (* sorted *) unfold retry3_of. destruct (e_live m [16; i]); [|exact I]. apply asorted_filter, asorted_fold_adel.
+      + (* sorted *) unfold retry3_of, retry2_of. cbn [consumed_of]. apply asorted_filter, asorted_fold_adel.
         unfold retry1_of, retry0_of. rewrite Edelta. cbn [fold_left retry_delta snd].
         repeat match goal with |- context [match ?c with _ => _ end] => destruct c end; cbn [snd]; try apply asorted_aset; try apply asorted_adel; apply HRR.
-      + (* no script *) intros Hs. unfold retry3_of. destruct (e_live m [16; i]); [|reflexivity]. rewrite book_news. cbn [map fold_left].
+      + (* no script *) intros Hs. unfold retry3_of, retry2_of. cbn [consumed_of]. rewrite book_news. cbn [map fold_left].
         unfold retry1_of, retry0_of. rewrite Edelta. cbn [fold_left retry_delta]. rewrite Hs, (rr_none _ _ HRR Hs).
         repeat match goal with |- context [match ?c with _ => _ end] => destruct c end; reflexivity.
       + (* obligations *)
-        intros k dl Hk. unfold retry3_of in Hk. destruct (e_live m [16; i]) eqn:El; [|discriminate]. rewrite book_news in Hk. cbn [map fold_left] in Hk.
+        intros k dl Hk. unfold retry3_of, retry2_of in Hk. cbn [consumed_of] in Hk. rewrite book_news in Hk. cbn [map fold_left] in Hk.
         change (fun kd0 : N * N => ahas (po_keys p) (fst kd0)) with (fun kd0 : N * N => (fun k0 => ahas (po_keys p) k0) (fst kd0)) in Hk.
         rewrite alook_filter_key in Hk. destruct (ahas (po_keys p) k) eqn:Epres; [|discriminate].
         unfold retry1_of, retry0_of in Hk. rewrite Edelta in Hk. cbn [fold_left retry_delta] in Hk. fold kd d in Hk. rewrite Ecur in Hk.
@@ -321,10 +355,10 @@ Section Book.
       assert (Edelta0 : po_delta p = []) by (rewrite Edelta, Bl, skipn_all; reflexivity).
       assert (Gq : forall q, getr s1 q = getr s q) by (intros q; unfold getr; now rewrite ER).
       constructor; cbn [fst mon1 m_retry m_bo m_script]; unfold retry1_of, retry0_of; rewrite ?Edelta0; cbn [fold_left fst snd].
-      + unfold retry3_of. destruct (e_live m [16; i]); [|exact I]. apply asorted_filter, asorted_fold_adel. unfold retry1_of, retry0_of. rewrite Edelta0. apply HRR.
-      + intros Hs. unfold retry3_of. destruct (e_live m [16; i]); [|reflexivity]. rewrite book_news. unfold retry1_of, retry0_of. rewrite Edelta0. cbn [map fold_left snd].
+      + unfold retry3_of, retry2_of. cbn [consumed_of]. apply asorted_filter, asorted_fold_adel. unfold retry1_of, retry0_of. rewrite Edelta0. apply HRR.
+      + intros Hs. unfold retry3_of, retry2_of. cbn [consumed_of]. rewrite book_news. unfold retry1_of, retry0_of. rewrite Edelta0. cbn [map fold_left snd].
         now rewrite (rr_none _ _ HRR Hs).
-      + intros k dl Hk. unfold retry3_of in Hk. destruct (e_live m [16; i]); [|discriminate]. rewrite book_news in Hk. unfold retry1_of, retry0_of in Hk. rewrite Edelta0 in Hk.
+      + intros k dl Hk. unfold retry3_of, retry2_of in Hk. cbn [consumed_of] in Hk. rewrite book_news in Hk. unfold retry1_of, retry0_of in Hk. rewrite Edelta0 in Hk.
         cbn [map fold_left snd] in Hk.
         change (fun kd0 : N * N => ahas (po_keys p) (fst kd0)) with (fun kd0 : N * N => (fun k0 => ahas (po_keys p) k0) (fst kd0)) in Hk.
         rewrite alook_filter_key in Hk. destruct (ahas (po_keys p) k); [|discriminate].
@@ -364,7 +398,11 @@ Section Next.
           destruct (PJJ_step (hs h) (ETimerCb t) HJ) as [J1 J21]. cbn [step] in J1, J21. specialize (J21 HJ2).
           destruct (POJ_settle (timer_cb repaired (hs h) t) J1 J21) as (_ & _ & G). exact G. }
         apply (RRet_nolog m h a Hh Hrel HK HRa HAD HT HRR [18; j] (ETimerCb t) [] (DC18 h j t H) X HP).
-        intros t' [_ Hc0]. destruct (e_live m [18; j]) eqn:El; [|reflexivity]. pose proof (e_live_has_ctx m [18; j] (hs h) (rel_ctx _ _ Hrel) El). congruence.
+        intros t' [-> Hc0] k dl x Hx Kx Ekx Edx Hk2.
+        assert (El : e_live m [18; j] = false).
+        { destruct (e_live m [18; j]) eqn:El; [|reflexivity]. pose proof (e_live_has_ctx m [18; j] (hs h) (rel_ctx _ _ Hrel) El). congruence. }
+        cbn [consumed_of]. rewrite HT, nth_error_map, H. cbn [option_map]. unfold tcode3. rewrite (nth_error_nth _ _ timer0 Hx), Kx, Ekx, N_of_n2n, Edx, El, Hk2.
+        cbn [nb N.eqb negb andb]. rewrite N.eqb_refl. apply alook_adel_same.
   Qed.
 
   Theorem c75_holds e ev rets : DecCase h e ev rets -> c75 m e (pobs_of rets (next h ev) (hlog h)) = true.
